@@ -891,6 +891,11 @@ fn gen_tval(rng: &mut Rng, ty: &str, depth: usize) -> String {
         while keys.len() < n {
             let k = if n > 8 {
                 format!("k{}", keys.len()).into_bytes()
+            } else if rng.chance(1, 50) {
+                // a key beyond the inline-length limit; two of them share their first 16383 bytes
+                let mut k = vec![b'k'; *rng.pick(&[16383usize, 16384, 16400])];
+                k.push(b'a' + keys.len() as u8);
+                k
             } else {
                 mp::gen_key(rng)
             };
@@ -924,7 +929,8 @@ fn gen_tval(rng: &mut Rng, ty: &str, depth: usize) -> String {
             format!("f{:016x}", b)
         }
         "str" => {
-            let n = gen_str_len_small(rng);
+            // now and then a string around and beyond the inline-length limit (2^14 - 1)
+            let n = if rng.chance(1, 40) { *rng.pick(&[16382usize, 16383, 16384, 16385, 20000, 65536]) } else { gen_str_len_small(rng) };
             let s: Vec<u8> = (0..n).map(|_| b'a' + rng.below(26) as u8).collect();
             format!("s{}", hex(&s))
         }
@@ -1085,7 +1091,20 @@ fn gen_intern(rec: &mut Rec, rng: &mut Rng, cases: u64) {
         for _ in 0..n {
             match rng.below(12) {
                 0 | 1 | 2 => {
-                    let k = if rng.chance(2, 3) {
+                    let k = if rng.chance(1, 3) {
+                        // strings that overlap what is already in the interner's buffer: repeats,
+                        // prefixes, suffixes and extensions of earlier strings, tiny periodic ones
+                        let prev: Vec<u8> = ids.iter().rev().find(|(i, k)| *i != usize::MAX && !k.is_empty() && k.len() < 64).map(|(_, k)| k.clone()).unwrap_or_else(|| b"x".to_vec());
+                        match rng.below(7) {
+                            0 => [prev.clone(), prev.clone()].concat(),
+                            1 => prev[..prev.len() / 2].to_vec(),
+                            2 => [prev.clone(), prev[..1].to_vec()].concat(),
+                            3 => [prev[prev.len() / 2..].to_vec(), prev.clone()].concat(),
+                            4 => prev.clone(),
+                            5 => vec![b'x'; rng.range(1, 5) as usize],
+                            _ => [b"ab".to_vec(), b"ab".to_vec(), vec![b'a'; rng.below(2) as usize]].concat(),
+                        }
+                    } else if rng.chance(1, 2) {
                         mp::gen_key(rng)
                     } else {
                         let len = match rng.below(6) {
